@@ -148,6 +148,30 @@ def guard_value(ctx, prog, R="C08.GUARD-value"):
             ctx.ok(R, "apply:slot")
         else:
             ctx.fail(R, "apply:slot", "set_var_stabilise_end does not take the pending slot and apply it", fn=E)
+        # ... on every path on which the slot was full: the only excuse for not applying is `take() == None`
+        if app:
+            c = E.cfg()
+            ex = set()
+            for b in E.blocks:
+                t = b["term"]
+                if t["k"] == "switch":
+                    e = expr(E, t["on"], du)
+                    if e[0] == "discr" and e[1][0] == "call" and e[1][1].endswith("Option::take") and mentions(
+                            e[1], lambda x: x[0] == "field" and x[2][-1] == "value_set_during_stabilisation"):
+                        for x in c.succ[b["id"]]:
+                            if 1 not in c.edge_values(b["id"], x):
+                                ex.add((b["id"], x))
+            pth = c.path([0], c.exits, avoid={t.bb for t in app}, avoid_edges=ex)
+            v = expr(E, app[0].args[1], du)
+            from_slot = mentions(v, lambda x: x[0] == "call" and x[1].endswith("Option::take"))
+            if pth is not None:
+                ctx.fail(R, "apply:always", "a pending write can be dropped: a path through set_var_stabilise_end returns "
+                         "without applying a full slot (e.g. because the new value compares equal - the var's own cutoff, "
+                         "not the var cell, decides whether an equal write propagates)", fn=E, path=q.fmt_path(E, pth))
+            elif not from_slot:
+                ctx.fail(R, "apply:always", "the value applied is not the one taken from the pending slot", fn=E)
+            else:
+                ctx.ok(R, "apply:always")
     # did_set_var_while_not_stabilising stamps set_at with the current stabilisation number under set_at < now
     D = ctx.need_fn(R, q.VAR + "did_set_var_while_not_stabilising")
     if D is not None:
